@@ -35,7 +35,7 @@ class UF:
             self.p[ra] = rb
 
 
-def analyse(fn):
+def analyse(fn, extra_sources=()):
     """returns list of findings: dict(kind, op, pos, bb, origin, operand_name, result_name)"""
     # 1. value classes
     uf = UF()
@@ -43,7 +43,7 @@ def analyse(fn):
     n_src = 0
     for b, t in fn.calls():
         c = callee(t)
-        if c and c["fn"] in SOURCE_FNS and len(t[3]) == 1:
+        if c and (c["fn"] in SOURCE_FNS or c["fn"] in extra_sources or c.get("res") in extra_sources) and len(t[3]) == 1:
             n_src += 1
             tainted_roots[t[3][0]] = "%s#%d" % (c["fn"].split("::")[-1], n_src)
     if not tainted_roots:
@@ -200,6 +200,27 @@ def analyse(fn):
                         if k not in seen_sinks:
                             seen_sinks.add(k)
                             findings.append(dict(kind="abs", op="abs", pos=t[-2], bb=b, locals=[l], origin=origin[uf.find(l)], dst=t[3][0]))
+    # does the function hand the raw value on to its caller?  (`Ok(raw)` / `raw` in the return place, unguarded)
+    returns_raw = False
+    for b, blk in enumerate(fn.blocks):
+        if fn.is_cleanup(b):
+            continue
+        for st in blk[0]:
+            if st[0] == "=" and st[1] == [0]:
+                rv = st[2]
+                ops = rv[2] if rv[0] == "agg" else ([rv[1]] if rv[0] == "use" else [])
+                for o in ops:
+                    l = op_local(o)
+                    if l is not None and is_tainted(l) and width_ok(l) and not guarded(l, b):
+                        returns_raw = True
+        t = blk[1]
+        if t[0] == "call" and t[3] == [0]:
+            c = callee(t)
+            if c and c["fn"].split("::")[-1] in ("map", "map_err") and t[2]:
+                l = op_local(t[2][0])
+                if l is not None and is_tainted(l) and not guarded(l, b):
+                    returns_raw = True
+    analyse.returns_raw = returns_raw
     for f_ in findings:
         names = [fn.local_name(x) for x in f_["locals"] if fn.local_name(x)]
         # the user variable that receives the result of the operation (`let width = read()? + 1`, `total += count`)
@@ -246,15 +267,32 @@ def run(ctx, crates):
                   "every report is a reachable panic in a checked build because the stream's integer configuration lets the "
                   "attacker choose any u32")
     total_src = 0
-    for f in ctx.prog.all_fns(crates):
-        findings, n_src = analyse(f)
+    # interprocedural step: functions that return a raw value unguarded are sources for their callers (fixpoint)
+    extra = set()
+    fns = [f for f in ctx.prog.all_fns(crates) if f.kind != "Promoted"]
+    for _ in range(4):
+        grew = False
+        for f in fns:
+            if f.path in extra or f.path in SOURCE_FNS:
+                continue
+            if "u32" not in f.local_ty(0) and "i32" not in f.local_ty(0):
+                continue
+            res = analyse(f, extra)
+            if res[1] and getattr(analyse, "returns_raw", False):
+                extra.add(f.path)
+                grew = True
+        if not grew:
+            break
+    ctx.counts[rid + ".derived-sources"] = len(extra)
+    for f in fns:
+        findings, n_src = analyse(f, extra)
         if not n_src:
             continue
         total_src += n_src
         ctx.seen(f)
         ctx.count(rid + ".sources", n_src)
         if not findings:
-            ctx.ok(rid, "fn:%s" % f.path, "%d varint reads; no unguarded panicking use" % n_src, nontrivial=True, fn=f)
+            ctx.ok(rid, "fn:%s" % f.path, "%d raw reads; no unguarded panicking use" % n_src, nontrivial=True, fn=f)
             continue
         for x in findings:
             key = "%s|%s:%s" % (f.path, x["kind"], x["name"])
